@@ -128,11 +128,13 @@ class _World:
 
         self.fns = {'sub': sub, 'typed': typed, 'unreg': unreg, 'boom': boom, 'boomt': boomt, 'boomk': boomk}
         d = (pjrpc.server.AsyncDispatcher if dk == 'async' else pjrpc.server.Dispatcher)(**wire.kwargs())
+        self._n = 0
         for name, fn in self.fns.items():
-            d.add(fn, name=name)
+            d.add(_suspending(fn, self) if dk == 'async' else fn, name=name)
         self.d = d
 
         def serve(text):
+            self._n = 0
             sent.append(wire.decode(text))
             if dk == 'sync':
                 out = d.dispatch(text)
@@ -176,6 +178,22 @@ class _World:
                 r = await r
             return r
         return run_coro(go())
+
+
+def _suspending(fn, world):
+    """Coroutine twin for the asynchronous dispatcher: the n-th method invoked while one document is served suspends 3-n times
+    BEFORE its body runs, so an element that is not awaited by dispatch() has not run when the client call returns."""
+    import asyncio
+    import functools
+
+    @functools.wraps(fn)
+    async def co(*args, **kwargs):
+        n = world._n
+        world._n += 1
+        for _ in range(max(0, 3 - n)):
+            await asyncio.sleep(0)
+        return fn(*args, **kwargs)
+    return co
 
 
 def _args(env, shape, tag=''):
